@@ -175,6 +175,78 @@ fn main() {
         let out = match p[0] {
             "beacon" => beacon(p[1], p[2].parse().unwrap(), p[3].parse().unwrap(), p[4].parse().unwrap()),
             "entity" => entity(&p),
+            "kes_window" => {
+                // a KES signature made at evolution 2 (key evolved twice), verified with announced evolutions 0..=5 and u64::MAX
+                use kes_summed_ed25519::kes::Sum6Kes;
+                use kes_summed_ed25519::traits::KesSk;
+                use mithril_common::crypto_helper::{ColdKeyGenerator, KesEvolutions, KesPeriod, KesVerifier, KesVerifierStandard, OpCert};
+                let mut seed = [7u8; 32];
+                let mut buf = [0u8; Sum6Kes::SIZE + 4];
+                let (mut sk, vk) = Sum6Kes::keygen(&mut buf, &mut seed);
+                sk.update().unwrap();
+                sk.update().unwrap();
+                let msg = b"verif kes window";
+                let sig = sk.sign(msg);
+                let keypair = ColdKeyGenerator::create_deterministic_keypair([9u8; 32]);
+                let opcert = OpCert::new(vk, 0, KesPeriod(0), keypair);
+                let mut out = Vec::new();
+                for e in [0u64, 1, 2, 3, 4, 5, u64::MAX] {
+                    let ok = KesVerifierStandard.verify(msg, &sig, &opcert, KesEvolutions(e)).is_ok();
+                    let want = (1..=3).contains(&e);
+                    out.push(format!("{}={}{}", e, if ok == want { "" } else { "VIOLATED " }, if ok { "accepted" } else { "rejected" }));
+                }
+                format!("registration kes_window(signed at evolution 2) {}", out.join(" "))
+            }
+            "registration" => {
+                // battery of altered / spliced registrations through the real KeyRegWrapper::register (real KES, real opcerts)
+                use mithril_common::crypto_helper::{KesEvolutions, ProtocolKeyRegistration, SignerRegistrationParameters};
+                use mithril_common::test::builder::MithrilFixtureBuilder;
+                let fixture = MithrilFixtureBuilder::default().with_signers(2).build();
+                let sw = fixture.signers_with_stake();
+                let dist: Vec<(String, u64)> = sw.iter().map(|s| (s.party_id.clone(), s.stake)).collect();
+                let (a, b) = (&sw[0], &sw[1]);
+                let base = |s: &mithril_common::entities::SignerWithStake| SignerRegistrationParameters {
+                    party_id: None,
+                    operational_certificate: s.operational_certificate.clone(),
+                    verification_key_for_concatenation: s.verification_key_for_concatenation,
+                    verification_key_signature_for_concatenation: s.verification_key_signature_for_concatenation,
+                    kes_evolutions: s.kes_evolutions,
+                };
+                let ev = a.kes_evolutions.map(|e| *e).unwrap_or(0);
+                let run = |p: SignerRegistrationParameters| -> String {
+                    let mut reg = ProtocolKeyRegistration::init(&dist);
+                    match reg.register(p) {
+                        Ok(id) => format!("ok:{}", if id == a.party_id { "A" } else if id == b.party_id { "B" } else { "other" }),
+                        Err(_) => "rejected".to_string(),
+                    }
+                };
+                let mut out = Vec::new();
+                let mut expect = |name: &str, got: String, want: &str| {
+                    out.push(format!("{}={}{}", name, if got == want { "" } else { "VIOLATED " }, got));
+                };
+                expect("honest", run(base(a)), "ok:A");
+                expect("evolution_plus_1", run(SignerRegistrationParameters { kes_evolutions: Some(KesEvolutions(ev + 1)), ..base(a) }), "ok:A");
+                expect("evolution_plus_2", run(SignerRegistrationParameters { kes_evolutions: Some(KesEvolutions(ev + 2)), ..base(a) }), "rejected");
+                expect("evolution_max", run(SignerRegistrationParameters { kes_evolutions: Some(KesEvolutions(u64::MAX)), ..base(a) }), "rejected");
+                expect("key_of_B_with_A_cert_and_signature", run(SignerRegistrationParameters { verification_key_for_concatenation: b.verification_key_for_concatenation, ..base(a) }), "rejected");
+                expect("signature_of_B_with_A_cert_and_key", run(SignerRegistrationParameters { verification_key_signature_for_concatenation: b.verification_key_signature_for_concatenation, ..base(a) }), "rejected");
+                expect("cert_of_B_with_A_key_and_signature", run(SignerRegistrationParameters { operational_certificate: b.operational_certificate.clone(), ..base(a) }), "rejected");
+                expect("claimed_party_B", run(SignerRegistrationParameters { party_id: Some(b.party_id.clone()), ..base(a) }), "ok:A");
+                expect("no_cert_claimed_party_A", run(SignerRegistrationParameters { party_id: Some(a.party_id.clone()), operational_certificate: None, ..base(a) }), "rejected");
+                expect("no_kes_signature", run(SignerRegistrationParameters { verification_key_signature_for_concatenation: None, ..base(a) }), "rejected");
+                {
+                    let mut reg = ProtocolKeyRegistration::init(&dist);
+                    let first = reg.register(base(a)).is_ok();
+                    let second = reg.register(base(a)).is_ok();
+                    expect("same_key_twice", format!("{}/{}", first, second), "true/false");
+                }
+                {
+                    let dist2: Vec<(String, u64)> = vec![(b.party_id.clone(), b.stake)];
+                    let mut reg = ProtocolKeyRegistration::init(&dist2);
+                    expect("pool_not_in_distribution", if reg.register(base(a)).is_ok() { "ok".to_string() } else { "rejected".to_string() }, "rejected");
+                }
+                format!("registration {}", out.join(" "))
+            }
             "attribution" => {
                 // A's own signature under A's label, under B's label, and under an unregistered label
                 use mithril_common::entities::{ProtocolMessage, ProtocolMessagePartKey};
